@@ -140,6 +140,33 @@ func handleFacts(p *pkg, f *facts) {
 		f.nat("evictDivisor", div, found, "no `evictCount := maxH / N` in Allocate")
 		f.boolean("evictionSkipsAssigned", skips, true, "")
 	}
+	// every mutating method of the handle table is one critical section: it starts with `fm.Lock(); defer
+	// fm.Unlock()` and takes or drops no lock anywhere else (the model treats each as one atomic step)
+	atomic := true
+	for _, m := range []string{"Allocate", "Release", "ReleaseAll"} {
+		fd, ok := p.funcs["FileHandleMap."+m]
+		if !ok || fd.Body == nil || len(fd.Body.List) < 2 {
+			atomic = false
+			continue
+		}
+		if squeeze(exprString(p.fset, fd.Body.List[0])) != "fm.Lock()" || squeeze(exprString(p.fset, fd.Body.List[1])) != "deferfm.Unlock()" {
+			atomic = false
+		}
+		locks := 0
+		ast.Inspect(fd.Body, func(node ast.Node) bool {
+			if ce, ok := node.(*ast.CallExpr); ok {
+				switch squeeze(exprString(p.fset, ce.Fun)) {
+				case "fm.Lock", "fm.Unlock", "fm.RLock", "fm.RUnlock":
+					locks++
+				}
+			}
+			return true
+		})
+		if locks != 2 {
+			atomic = false
+		}
+	}
+	f.boolean("handleOpsAtomic", atomic, true, "")
 	// every handler maps a failed handle lookup to NFSERR_STALE
 	all := true
 	n := 0
